@@ -41,12 +41,24 @@ type Cfg struct {
 	Capacity  uint64 `json:"capacity"`
 	AConv     *Ilv   `json:"aconv,omitempty"`
 	BConv     *Ilv   `json:"bconv,omitempty"`
+	// how the builder is used (not part of the Coq configuration): a second
+	// component built from the same builder value / an explicit WithStorage
+	Twin       bool `json:"twin,omitempty"`
+	OwnStorage bool `json:"ownstorage,omitempty"`
+}
+
+// StorEntry is a range read back directly from the storage object.
+type StorEntry struct {
+	Addr uint64 `json:"addr"`
+	Data []int  `json:"data"`
 }
 
 // Event is one environment action in canonical (replayable) form.
 type Event struct {
-	E   string  `json:"e"` // d tick r
+	E   string  `json:"e"` // d tick r | tw (write through the twin component) | st (read the storage back)
 	Msg *vh.Msg `json:"msg,omitempty"`
+	// for st: the ranges to read (input) and what the storage holds (observation)
+	Stor []StorEntry `json:"stor,omitempty"`
 	// observation
 	Acc      *bool   `json:"acc,omitempty"`
 	Progress *bool   `json:"progress,omitempty"`
@@ -63,9 +75,12 @@ type Case struct {
 }
 
 type runner struct {
-	comp  *simplebankedmemory.Comp
-	top   sim.Port
-	canon *vh.Canon
+	comp    *simplebankedmemory.Comp
+	top     sim.Port
+	canon   *vh.Canon
+	twin    *simplebankedmemory.Comp
+	twinTop sim.Port
+	storage *mem.Storage // the storage object the component is expected to use
 }
 
 func conv(i *Ilv) mem.AddressConverter {
@@ -90,8 +105,13 @@ func newRunner(c Cfg) *runner {
 		WithPostPipelineBufferSize(c.PostCap).
 		WithLog2InterleaveSize(c.Log2Ilv).
 		WithRowBufferSizeLog2(c.RowLog2).
-		WithRowMissDelay(c.MissDelay).
-		WithNewStorage(c.Capacity)
+		WithRowMissDelay(c.MissDelay)
+	if c.OwnStorage {
+		r.storage = mem.NewStorage(c.Capacity)
+		b = b.WithStorage(r.storage)
+	} else {
+		b = b.WithNewStorage(c.Capacity)
+	}
 	if c.AConv != nil {
 		b = b.WithAddressConverter(conv(c.AConv))
 	}
@@ -101,6 +121,15 @@ func newRunner(c Cfg) *runner {
 	r.comp = b.Build("DRAM")
 	r.top = r.comp.GetPortByName("Top")
 	(&vh.StubConn{}).PlugIn(r.top)
+	if r.storage == nil {
+		r.storage = r.comp.Storage
+	}
+	if c.Twin && !c.OwnStorage {
+		// a second memory from the very same builder value must be independent
+		r.twin = b.Build("DRAM2")
+		r.twinTop = r.twin.GetPortByName("Top")
+		(&vh.StubConn{}).PlugIn(r.twinTop)
+	}
 	r.canon.SetPort(r.top.AsRemote(), pTop)
 	r.canon.SetPort("", 0)
 	for i := 10; i < 40; i++ {
@@ -164,6 +193,31 @@ func (r *runner) apply(e *Event) (crashed bool) {
 			g := r.canon.FromSim(m, 0)
 			e.Got = &g
 		}
+	case "tw":
+		// a write performed completely on the twin component (never on the one under test)
+		if r.twin != nil {
+			q := mem.WriteReqBuilder{}.WithSrc(agent(e.Msg.Src)).WithDst(r.twinTop.AsRemote()).
+				WithAddress(e.Msg.Addr).WithData(e.Msg.Data).Build()
+			ok := r.twinTop.Deliver(q) == nil
+			for k := 0; ok && k < 2000; k++ {
+				r.twin.Tick()
+				if r.twinTop.RetrieveOutgoing() != nil {
+					break
+				}
+			}
+		}
+	case "st":
+		for i := range e.Stor {
+			n := len(e.Stor[i].Data)
+			data, err := r.storage.Read(e.Stor[i].Addr, uint64(n))
+			if err != nil {
+				panic(err)
+			}
+			e.Stor[i].Data = make([]int, n)
+			for j, b := range data {
+				e.Stor[i].Data[j] = int(b)
+			}
+		}
 	}
 	return false
 }
@@ -197,6 +251,14 @@ func genCfg(rng *vh.Rng, hostile bool) Cfg {
 	} else if rng.Intn(6) == 0 {
 		// the shape the MI300A platform uses: a bank-selection converter only
 		c.BConv = &Ilv{Size: 4096, Total: 4, Index: uint64(rng.Intn(4))}
+	}
+	if !hostile {
+		switch rng.Intn(5) {
+		case 0:
+			c.Twin = true
+		case 1:
+			c.OwnStorage = true
+		}
 	}
 	return c
 }
@@ -294,10 +356,37 @@ func generate(rng *vh.Rng, hostile bool) Case {
 		m.Fix()
 		return m
 	}
+	// a second request to the same bank but another row: the two row misses
+	// expire together (or the second expires while the first occupies stage 0)
+	rowPartner := func(m *vh.Msg) *vh.Msg {
+		stride := uint64(1) << c.Cfg.Log2Ilv
+		if r := uint64(1) << c.Cfg.RowLog2; r > stride {
+			stride = r
+		}
+		stride *= uint64(c.Cfg.Banks)
+		if c.Cfg.BConv != nil {
+			stride *= c.Cfg.BConv.Total * c.Cfg.BConv.Size // stays in the same element
+		}
+		p := &vh.Msg{ID: next, Src: m.Src, Dst: pTop, Addr: m.Addr + stride*uint64(1+rng.Intn(3)), Kind: "KRead", Size: 4}
+		next++
+		p.Fix()
+		return p
+	}
+	var written [][2]uint64 // ranges written through the component under test or the twin
 	crashed := false
+	accepted, retrieved := 0, 0
 	step := func(e Event) bool {
 		crashed = r.apply(&e)
 		c.Events = append(c.Events, e)
+		if e.E == "d" && e.Acc != nil && *e.Acc {
+			accepted++
+			if e.Msg.Kind == "KWrite" {
+				written = append(written, [2]uint64{e.Msg.Addr, uint64(len(e.Msg.Data))})
+			}
+		}
+		if e.E == "r" && e.Got != nil {
+			retrieved++
+		}
 		return !crashed
 	}
 	for i := 0; i < n && !crashed; i++ {
@@ -306,7 +395,29 @@ func generate(rng *vh.Rng, hostile bool) Case {
 			step(Event{E: "d", Msg: mkReq()})
 			continue
 		}
-		switch rng.Pick(wD, wT, wR, 2) {
+		switch rng.Pick(wD, wT, wR, 2, 3, 2) {
+		case 4:
+			if !hostile {
+				m := mkReq()
+				step(Event{E: "d", Msg: m})
+				if !crashed {
+					step(Event{E: "d", Msg: rowPartner(m)})
+				}
+			}
+		case 5:
+			if r.twin != nil {
+				m := mkReq()
+				m.Kind, m.Size, m.Mask = "KWrite", 0, nil
+				if len(m.Data) == 0 {
+					m.Data = []byte{byte(rng.U64()) | 1, 0xa5, 0x5a, 0xff}
+				}
+				for j := range m.Data {
+					m.Data[j] |= 1 // never zero: leaks into an untouched location are visible
+				}
+				m.Fix()
+				written = append(written, [2]uint64{m.Addr, uint64(len(m.Data))})
+				step(Event{E: "tw", Msg: m})
+			}
 		case 0:
 			step(Event{E: "d", Msg: mkReq()})
 		case 1:
@@ -338,6 +449,42 @@ func generate(rng *vh.Rng, hostile bool) Case {
 			quiet = 0
 		}
 	}
+	// fair tail: rounds of (retrieve everything, tick). By dram_every_request_answered
+	// inflight * (missdelay + cps*depth + 4) such rounds answer every request; stop
+	// as soon as all are answered, give up (rule not applicable) beyond 600 rounds
+	if !crashed && !hostile {
+		per := c.Cfg.MissDelay + c.Cfg.Cps*c.Cfg.Depth + 4
+		rounds := (accepted - retrieved) * per
+		if rounds > 600 {
+			rounds = 600
+		}
+		retrAll := func() bool {
+			for {
+				if !step(Event{E: "r"}) {
+					return false
+				}
+				if c.Events[len(c.Events)-1].None {
+					return true
+				}
+			}
+		}
+		for k := 0; k < rounds && !crashed && retrieved < accepted; k++ {
+			if !retrAll() || !step(Event{E: "tick"}) {
+				break
+			}
+		}
+		if !crashed {
+			retrAll()
+		}
+		// what the storage object holds where somebody wrote (directly observable state)
+		if !crashed && c.Cfg.AConv == nil && len(written) > 0 {
+			e := Event{E: "st"}
+			for _, w := range written {
+				e.Stor = append(e.Stor, StorEntry{Addr: w[0], Data: make([]int, w[1])})
+			}
+			step(e)
+		}
+	}
 	c.Coq = caseCoq(&c)
 	return c
 }
@@ -348,6 +495,9 @@ func replay(c Case) Case {
 	out := Case{Cfg: c.Cfg, Hostile: c.Hostile}
 	for _, e := range c.Events {
 		ne := Event{E: e.E, Msg: e.Msg}
+		for _, se := range e.Stor {
+			ne.Stor = append(ne.Stor, StorEntry{Addr: se.Addr, Data: make([]int, len(se.Data))})
+		}
 		if ne.Msg != nil {
 			ne.Msg.Data = make([]byte, len(ne.Msg.DataI))
 			for i, x := range ne.Msg.DataI {
@@ -405,9 +555,12 @@ func cfgCoq(c *Cfg) string {
 }
 
 func caseCoq(c *Case) string {
-	items := make([]string, len(c.Events))
+	items := make([]string, 0, len(c.Events))
 	for i := range c.Events {
-		items[i] = evCoq(&c.Events[i])
+		if c.Events[i].E == "tw" || c.Events[i].E == "st" {
+			continue // builder-usage probes: not events of the modelled component
+		}
+		items = append(items, evCoq(&c.Events[i]))
 	}
 	return fmt.Sprintf("mkCase %s %s", cfgCoq(&c.Cfg), "["+strings.Join(items, ";\n  ")+"]")
 }
